@@ -72,6 +72,7 @@ def step (s : St) (f : List String) (impl : String) : LineOut St :=
   match h with
   | .bad => { state := s, model := some out }
   | .localState => { state := s, model := some out }
+  | .sync2 _ => { state := s, model := some out }
   | _ =>
     match parseObs impl with
     | none => { state := { s with base := { s.base with node := n' } }, model := some out, monitor := some ("malformed", impl) }
